@@ -43,10 +43,10 @@ def generate(tier, seed):
     for rep in range(reps):
         for chunk in range(24):
             cases.append({"kind": "types", "chunk": chunk, "of": 24, "rep": rep})
-    n_s = 30 if tier == "quick" else 1500
+    n_s = 60 if tier == "quick" else 1500
     for k in range(n_s):
         cases.append({"kind": "sampled", "k": k, "n": 50})
-    for k in range(20 if tier == "quick" else 1500):
+    for k in range(48 if tier == "quick" else 1500):
         cases.append({"kind": "multi", "k": k, "n": 8})
     return cases
 
